@@ -197,7 +197,23 @@ def path_facts(atoms):
     return facts
 
 
-def writer_tape(rep, F, fn, scale_term, rule='NUMERAL-SHAPE'):
+def scale_facts(atoms, scale_term):
+    """path tests that pin the scale: `scale == 0` taken / `scale != 0` not taken -> [lin(scale)]"""
+    out = []
+    st = norm(scale_term)
+    for a, c in atoms:
+        a0 = norm(a)
+        if a0 == st and c == ('eq', 0):
+            out.append(lin(scale_term))
+        if _is(a0, 'bin') and a0[1] in ('Eq', 'Ne'):
+            truth = not (c == ('eq', 0))
+            for x, y in ((a0[2], a0[3]), (a0[3], a0[2])):
+                if norm(x) == st and norm(y) == ('const', 0) and truth == (a0[1] == 'Eq'):
+                    out.append(lin(scale_term))
+    return out
+
+
+def writer_tape(rep, F, fn, scale_term, rule='NUMERAL-SHAPE', scale_preserving=False):
     """fn(n: &BigDecimal, w: &mut W): interpret every successful path's writes"""
     try:
         pe = TB.PathEnum(F, fn, max_paths=600, cut_loops=True)
@@ -285,7 +301,11 @@ def writer_tape(rep, F, fn, scale_term, rule='NUMERAL-SHAPE'):
             verdicts.setdefault('other', []).append(('undecided', unknown[0]))
             continue
         if zero_lit and root is None:
-            verdicts.setdefault('zero', []).append(('ok', 'zero is written as the literal 0e0'))
+            # the literal numeral "0e0" has no fraction digit and exponent 0: it denotes scale 0
+            if scale_preserving and lin(scale_term) and not multiple_of(lin(scale_term), facts + scale_facts(atoms, scale_term)):
+                verdicts.setdefault('zero', []).append(('violation', 'zero is written as the literal "0e0" whatever its scale: the text parses back with scale 0, so the digits and scale of 0.00 or 0e5 are not preserved (the {:e} form writes 0e-2 / 0e5)'))
+            else:
+                verdicts.setdefault('zero', []).append(('ok', 'zero is written as the literal 0e0' + (' only where the scale is 0' if scale_preserving else ' (this notation does not promise the scale)')))
             continue
         if root is None:
             continue
@@ -542,7 +562,7 @@ def check(rep, F, rule='NUMERAL-SHAPE'):
             rep.violation(rule, nm + ':missing', 'anchor function not found (fail closed)')
             continue
         rep.add_functions([fn.name])
-        n += writer_tape(rep, F, fn, scale_of_arg1, rule)
+        n += writer_tape(rep, F, fn, scale_of_arg1, rule, scale_preserving=nm.endswith('write_scientific_notation'))
     fn = F.fns.get('impl_fmt::format_exponential_bigendian_ascii_digits')
     if fn is None:
         rep.violation(rule, 'format_exponential_bigendian_ascii_digits:missing', 'anchor function not found (fail closed)')
